@@ -131,3 +131,7 @@ Definition run_dc (ds : list dcl) : out :=
        | Some rows => olist (fun r => OL [oq (fst (fst r)); oq (snd (fst r)); oq (snd r)]) rows
        | None => OErr "raise" end ].
 Definition run_rate (max_load max_i_ka df par vn s3 : Q) : out := oq (rate_a max_load max_i_ka df par vn s3).
+
+(* ---- transformer rating (build_branch.py:386-396): RATE_A = max_loading_percent / 100 * sn_mva * df * parallel *)
+Definition rate_a_trafo (max_load sn df par : Q) : Q := qmul (qmul (qmul (qdiv max_load 100) sn) df) par.
+Definition run_rate_trafo (max_load sn df par : Q) : out := oq (rate_a_trafo max_load sn df par).
